@@ -183,6 +183,14 @@ func (rt *runtime) cmplEvaluateNodeForInStatement(node *nodeForInStatement) Valu
 	labels := append(rt.labels, "") //nolint:gocritic
 	rt.labels = nil
 
+	// 12.6.4: the initialiser of `for (var x = e in o)` is evaluated once, before the
+	// object expression; each iteration then only assigns the property name to x.
+	into := node.into
+	if variable, ok := into.(*nodeVariableExpression); ok && variable.initializer != nil {
+		rt.cmplEvaluateNodeVariableExpression(variable)
+		into = &nodeVariableExpression{name: variable.name, idx: variable.idx}
+	}
+
 	source := rt.cmplEvaluateNodeExpression(node.source)
 	sourceValue := source.resolve()
 
@@ -193,7 +201,6 @@ func (rt *runtime) cmplEvaluateNodeForInStatement(node *nodeForInStatement) Valu
 
 	sourceObject := rt.toObject(sourceValue)
 
-	into := node.into
 	body := node.body
 
 	// A property name is visited at most once, also when the body deletes
